@@ -30,19 +30,20 @@ type Req struct {
 	Body    []byte
 
 	// signing
-	Auth       string // "header" | "unsigned" | "stream-signed" | "stream-signed-trailer" | "stream-unsigned-trailer" | "presign" | "none"
-	Creds      Creds
-	Region     string
-	Time       time.Time                // zero = now
-	TimeOffset int                      // seconds added to now when Time is zero
-	Expires    int                      // presign
-	Chunks     []int                    // chunk sizes for streaming modes (last chunk takes the rest)
-	Trailer    string                   // checksum algorithm for trailer modes: crc32|crc32c|sha1|sha256|crc64nvme
-	Defect     string                   // credential / integrity defect injected after a correct signature was computed
-	WireMut    func(wire []byte) []byte // mutation of the encoded body after encoding/signing
-	DeclLen    *int64                   // overrides x-amz-decoded-content-length (streaming) when set
-	Timeout    time.Duration
-	NoContLen  bool
+	Auth          string // "header" | "unsigned" | "stream-signed" | "stream-signed-trailer" | "stream-unsigned-trailer" | "presign" | "none"
+	Creds         Creds
+	Region        string
+	Time          time.Time                // zero = now
+	TimeOffset    int                      // seconds added to now when Time is zero
+	Expires       int                      // presign
+	Chunks        []int                    // chunk sizes for streaming modes (last chunk takes the rest)
+	Trailer       string                   // checksum algorithm for trailer modes: crc32|crc32c|sha1|sha256|crc64nvme
+	Defect        string                   // credential / integrity defect injected after a correct signature was computed
+	WireMut       func(wire []byte) []byte // mutation of the encoded body after encoding/signing
+	DeclLen       *int64                   // overrides x-amz-decoded-content-length (streaming) when set
+	Timeout       time.Duration
+	NoContLen     bool
+	PayloadHashOf []byte // header mode: sign x-amz-content-sha256 = sha256 of these bytes instead of Body
 }
 
 type Resp struct {
@@ -196,7 +197,11 @@ func (r *Req) prepare(host string) []byte {
 	case "none", "":
 		return wire
 	case "header":
-		s := r.sign(host, sha256hex(r.Body), false)
+		ph := sha256hex(r.Body)
+		if r.PayloadHashOf != nil {
+			ph = sha256hex(r.PayloadHashOf)
+		}
+		s := r.sign(host, ph, false)
 		r.setAuth(s)
 	case "unsigned":
 		s := r.sign(host, "UNSIGNED-PAYLOAD", false)
